@@ -43,9 +43,10 @@ def one(case, model, rep):
     nwait = len(members)
     try:
         plan = {}
-        for t in targets:
+        for k, t in enumerate(targets):
             for c in cmds:
-                repo.install(t["path"], c)
+                # every third member's command file may be a symbolic link to a shared script
+                repo.install(t["path"], c, symlink=bool(case.get("symlinks")) and t["path"].startswith("m") and k % 3 == 0)
         for i in members:
             plan["%s|m%02d" % (cmds[probe_cmd], i)] = {
                 "barrier": {"dir": repo.barrier_root + "/" + cmds[probe_cmd], "n": nwait, "timeout_ms": case.get("timeout_ms", 15000)}}
@@ -63,9 +64,9 @@ def one(case, model, rep):
                 with open(repo.dir + "/m%02d/file.txt" % i, "a") as f:
                     f.write("changed\n")
             rep.count("pruned_groups")
-        if consumers:
+        if consumers or case.get("named_deps"):
             run_args += ["-t"] + ["m%02d" % i for i in range(size)] + ["--deps"]
-            rep.count("selected_with_unselected_consumers")
+            rep.count("selected_with_unselected_consumers" if consumers else "named_with_deps")
         tail = None
         if case.get("listener"):
             import logtail
@@ -98,7 +99,7 @@ def one(case, model, rep):
                              "first_bad_entry": bad, "started_of_probe": len([t for t in repo.traces() if t["command"] == cmds[probe_cmd] and t["target"].startswith("m")]),
                              "stderr": err[-300:]})
             return
-        if pruned or consumers:
+        if pruned or consumers or case.get("named_deps"):
             rep.sample({"case": case, "wall_s": round(time.time() - t0, 3)})
             return
         # the model spawns every member of a group in one step
@@ -149,6 +150,10 @@ def main():
             cases.append({"size": s, "pre_groups": 0, "commands": 1, "probe_command": 0, "pruned": k})
         for s, cons in ([(10, [3, 7]), (6, [0, 1, 4])] if args["tier"] == "quick" else [(10, [3, 7]), (6, [0, 1, 4]), (24, [1, 2, 3, 20])]):
             cases.append({"size": s, "pre_groups": 0, "commands": 1, "probe_command": 0, "consumers": cons})
+        # members named with -t .. --deps in a configuration without any `uses`; symlinked command files
+        for s in ([2, 7] if args["tier"] == "quick" else [2, 7, 24, 40]):
+            cases.append({"size": s, "pre_groups": 0, "commands": 1, "probe_command": 0, "named_deps": True})
+            cases.append({"size": s + 1, "pre_groups": 1, "commands": 1, "probe_command": 0, "symlinks": True})
         n = (150 if args["tier"] == "thorough" else 12) * args["budget"]
         for _ in range(n):
             nc = rng.range(1, 3)
